@@ -34,11 +34,14 @@ Definition parse_op14 (s : str) : option op :=
   | 71 :: r => option_map OGet (hexnat r)        (* G<idx> *)
   | [83; 48] => Some (OStore false 0 1)          (* S0 *)
   | [83; 49] => Some (OStore true 0 1)           (* S1 *)
+  | [83; 50] => Some (OStore true 0 1)           (* S2: one 100 KiB entry, fills the segment *)
+  | [83; 51] => Some (OStore true 0 1)           (* S3: one 32 KiB entry, fills the segment *)
   | 83 :: sl :: 95 :: r =>                       (* S<seal>_<tag>_<n> *)
       match split_on 95 r with
       | [tg; n] => match hexnat tg, hexnat n with
                    | Some tg, Some (S n) => if sl =? 48 then Some (OStore false tg (S n))
-                                            else if sl =? 49 then Some (OStore true tg (S n)) else None
+                                            else if (49 <=? sl) && (sl <=? 51) then Some (OStore true tg (S n))
+                                            else None
                    | _, _ => None
                    end
       | _ => None
